@@ -6,6 +6,7 @@ import (
 	"crypto/sha256"
 	"fmt"
 	"os/exec"
+	"strconv"
 	"strings"
 	"sync"
 	"time"
@@ -326,4 +327,93 @@ func solveEach(fr *FuncResult, work []*Instance, timeoutS int, thorough, cover b
 		return unk.r.Status, unk.in, unk.r
 	}
 	return "unsat", nil, SolveResult{Status: "unsat", Ms: ms, Solver: "z3-5.1"}
+}
+
+// GetValues asks the solver that found a model for the values of the given terms.
+func GetValues(query string, solver string, terms []string, timeoutS int) map[string]string {
+	out := map[string]string{}
+	if len(terms) == 0 {
+		return out
+	}
+	var sp *solverSpec
+	for i := range solvers {
+		if solvers[i].name == solver {
+			sp = &solvers[i]
+		}
+	}
+	if sp == nil {
+		sp = &solvers[0]
+	}
+	args := sp.cmd(timeoutS)
+	cmd := exec.Command(args[0], args[1:]...)
+	var sb strings.Builder
+	sb.WriteString(sp.pre + query + "(check-sat)\n")
+	for _, t := range terms {
+		sb.WriteString("(get-value (" + t + "))\n")
+	}
+	cmd.Stdin = strings.NewReader(sb.String())
+	var buf bytes.Buffer
+	cmd.Stdout = &buf
+	_ = cmd.Run()
+	lines := strings.Split(buf.String(), "\n")
+	if len(lines) == 0 || strings.TrimSpace(lines[0]) != "sat" {
+		return out
+	}
+	rest := strings.Join(lines[1:], "\n")
+	// each answer is ((term value)); values are the last token group
+	i := 0
+	for _, t := range terms {
+		j := strings.Index(rest[i:], "((")
+		if j < 0 {
+			break
+		}
+		start := i + j
+		depth := 0
+		end := start
+		for k := start; k < len(rest); k++ {
+			if rest[k] == '(' {
+				depth++
+			} else if rest[k] == ')' {
+				depth--
+				if depth == 0 {
+					end = k
+					break
+				}
+			}
+		}
+		ans := rest[start+2 : end-1]
+		// strip the echoed term
+		val := strings.TrimSpace(strings.TrimPrefix(strings.TrimSpace(ans), t))
+		if val == ans {
+			// term was re-printed differently: take the last atom / parenthesised group
+			if p := strings.LastIndexAny(ans, " \n"); p >= 0 {
+				val = strings.TrimSpace(ans[p:])
+			}
+		}
+		out[t] = val
+		i = end + 1
+	}
+	return out
+}
+
+// smtValueToInt parses #x.., #b.., decimal and (- n) values.
+func smtValueToInt(v string) (int64, bool) {
+	v = strings.TrimSpace(v)
+	switch {
+	case strings.HasPrefix(v, "#x"):
+		u, err := strconv.ParseUint(v[2:], 16, 64)
+		return int64(u), err == nil
+	case strings.HasPrefix(v, "#b"):
+		u, err := strconv.ParseUint(v[2:], 2, 64)
+		return int64(u), err == nil
+	case strings.HasPrefix(v, "(- "):
+		n, err := strconv.ParseInt(strings.TrimSuffix(strings.TrimPrefix(v, "(- "), ")"), 10, 64)
+		return -n, err == nil
+	case v == "true":
+		return 1, true
+	case v == "false":
+		return 0, true
+	}
+	n, err := strconv.ParseInt(v, 10, 64)
+	return n, err == nil
 }
